@@ -1,6 +1,7 @@
 import LdkModel.Driver.Util
 import LdkModel.Model.Channel
 import LdkModel.Model.ChanPersist
+import LdkModel.Model.ChanReest
 import LdkModel.Proofs.Channel.Guarded
 import LdkModel.Model.MonGate
 import LdkModel.Model.TxBuilder
@@ -119,7 +120,11 @@ def chan : Drv where
     | ["restart", x], some s => ret
       (match stepR s (.restart (x == "a")) with | none => (some s, "disabled") | some s' => (some s', "ok"))
     | ["reest", y], some s => ret
-      (match stepG s (.reest (y == "a")) with | none => (some s, "disabled") | some s' => (some s', "ok"))
+      -- the decisions GENERATED from channel_reestablish (Model/ChanReest.lean) must give what the protocol model's step gives
+      (let gen := if y == "a" then s.a.reestablishG s.b.csRecv s.b.raaRecv else s.b.reestablishG s.a.csRecv s.a.raaRecv
+       let mdl := if y == "a" then s.a.reestablish s.b.csRecv s.b.raaRecv else s.b.reestablish s.a.csRecv s.a.raaRecv
+       if gen != mdl then (some s, "GENERATED-REESTABLISH-DIFFERS") else
+       match stepG s (.reest (y == "a")) with | none => (some s, "disabled") | some s' => (some s', "ok"))
     | ["dump", x], some s => ret <|
       let n := if x == "a" then s.a else s.b
       (some s, s!"v={n.valueToSelf} in=[{",".intercalate (n.inb.map (fun h => s!"{h.id}:{h.amt}:{showSt h.st}"))}] out=[{",".intercalate (n.outb.map (fun h => s!"{h.id}:{h.amt}:{showOSt h.st}"))}] awaiting={n.awaitingRaa}")
